@@ -22,6 +22,7 @@ def run(ctx):
                                    label_pattern=ctx.rng.choice(["dup_unsorted", "dup_sorted", "desc_dups"]))
         if i % 4 == 0:
             ops_nf.case_query_mixed(ctx, s)
+            ops_nf.case_query_mixed_arith(ctx)
         if i % 3 == 1:
             ops_nf.case_query_flat(ctx, s)
         if i % 5 == 0:
